@@ -66,6 +66,8 @@ type Table struct {
 	WithoutRowID bool     `json:"without_rowid,omitempty"`
 	Strict       bool     `json:"strict,omitempty"`
 	InlineUnique []string `json:"inline_unique,omitempty"` // columns declared with an inline UNIQUE constraint (native style only)
+	// Remark (native style): the CREATE TABLE text carries a comment line that mentions a constraint which is not there
+	Remark bool `json:"remark,omitempty"`
 }
 
 type Schema struct {
@@ -262,6 +264,9 @@ func (t Table) DDL(style Style) []string {
 		defs = append(defs, d+"CHECK ("+c.Expr+")")
 	}
 	create := "CREATE TABLE " + q(style, t.Name) + " (\n  " + strings.Join(defs, ",\n  ") + "\n)"
+	if t.Remark && style == StyleNative && len(t.Cols) > 0 {
+		create = "CREATE TABLE " + q(style, t.Name) + " (\n  " + strings.Join(defs, ",\n  ") + "\n  -- CHECK (" + q(style, t.Cols[0].Name) + " > 0) was removed, see CONSTRAINT ck_gone\n)"
+	}
 	var opts []string
 	if t.WithoutRowID {
 		opts = append(opts, "WITHOUT ROWID")
